@@ -149,3 +149,6 @@ package b6
 //@   ensures forall(i, 0, old(len(*t)), implies(old((*t)[i].Key) == tag.Key && forall(j, 0, i, old((*t)[j].Key) != tag.Key), result0 && (*t)[i].Key == tag.Key && (*t)[i].Value == tag.Value && result1 == old((*t)[i].Value)))
 //@   ensures forall(i, 0, old(len(*t)), implies(old((*t)[i].Key) != tag.Key || !result0, (*t)[i] == old((*t)[i])))
 //@   ensures implies(forall(j, 0, old(len(*t)), old((*t)[j].Key) != tag.Key), !result0 && len(*t) == old(len(*t)) + 1 && (*t)[old(len(*t))] == tag)
+//@ func FeaturesByID.FindFeatureByID
+//@   trusted
+//@   function
